@@ -4,6 +4,7 @@ from sa.lib import *
 from sa.forward import Forward, attribute_summary
 from sa.dataflow import cmp_key, Poly
 
+TECHNIQUE = 'static analysis (ast): forward abstract interpretation of LimitOrderBook.update (stores and history appends exactly once), effect / ownership rules for books, typestate of dead books, sign tables of acq_price / liq_price, key-normalisation rule of Exchange.__getitem__ by value id'
 EXPLANATION = (
     "Decides the structural clauses of C14: (S1) LimitOrderBook.update stores each quote field from the event's field of the same "
     "name and appends each of the six history columns exactly once on every path with the value of the *new* quote (mid = (ask+bid)/2); "
